@@ -1,11 +1,8 @@
 import NopModel.Lemmas.XVer
 import NopModel.Properties.C04
-/-! C08 — Table framing is validated: hash, duplicate ids, entry sizes, padding.
-**Partial** for one clause: that *every* value is rejected when its entry declares fewer bytes
-than it needs is shown only up to "the first read that crosses the declared size fails with
-ReadLimitReached and that error is the result of the whole table read" (C08_smaller_size_partial
-with C08_entry_error / C08_loop_error); that such a read always occurs for every type rests on
-the correspondence check, which shrinks declared sizes on the real decoder and the model. -/
+import NopModel.Properties.C01
+import NopModel.Lemmas.ConfDec
+/-! C08 — Table framing is validated: hash, duplicate ids, entry sizes, padding. -/
 namespace Nop
 
 /-- **Hash mismatch → InvalidTableHash, before any entry is read**: the reader has consumed the
@@ -49,7 +46,7 @@ permutation of the reader's (`xEntries` matches by id, not by position). -/
 theorem C08_any_order (eR : List (Nat × Bool)) (tR : List Ty) (hlenR : eR.length = tR.length) (hdR : idsDistinct eR = true)
     (tW : List Ty) (eW : List (Nat × Bool)) (vw : List Val) (h : HChan) (ebs : Bytes) (h' : HChan)
     (hlt : ∀ e ∈ eW, e.1 < 2 ^ 64) (hdW : idsDistinct eW = true)
-    (hx : ∀ p ∈ eW.zip tW, ∀ q ∈ eR.zip tR, p.1.1 = q.1.1 → q.1.2 = false → XRT p.2 q.2)
+    (hx : ∀ p ∈ eW.zip tW, ∀ q ∈ eR.zip tR, p.1.1 = q.1.1 → q.1.2 = false → XR p.2 q.2 id)
     (hv : validEntries eW tW vw = true) (he : encEntries eW tW vw h = .ok (ebs, h')) :
     DecOK (itM (activeCount vw) (fun cur => decInt .u64 >>= fun id => decEntry eR tR id.toNat cur) (eR.map (xslot [])))
       (eR.map (xslot (present eW vw))) ebs h'.pushed := by
@@ -88,13 +85,51 @@ theorem C08_table_error (hash : Nat) (eR : List (Nat × Bool)) (tR : List Ty) (p
   rw [bind_ok hn]
   exact bind_err hloop
 
-/-- **Declared size smaller than the value needs (partial)**: inside the entry's frame, the
-first primitive read that would cross the declared size fails with ReadLimitReached without
-touching the underlying reader; by the three theorems above that error is what the table
-read returns. -/
-theorem C08_smaller_size_partial (s : Src) (n b : Nat) (fs : List Nat) (hfr : s.frames = b :: fs) (hlt : b < n) :
+/-- the first primitive read that would cross the declared size fails with ReadLimitReached
+without touching the underlying reader -/
+theorem C08_crossing_read_fails (s : Src) (n b : Nat) (fs : List Nat) (hfr : s.frames = b :: fs) (hlt : b < n) :
     rRead n s = (.error .readLimitReached, s) :=
   C04_read_limit s n b fs hfr hlt
+
+/-- **A declared size smaller than the value needs is rejected**, for every type and value:
+inside a `BoundedReader` of `sz` bytes, reading a value whose encoding `vb` is longer than `sz`
+never succeeds - whatever follows the value and whatever budgets enclose the entry. (A successful
+read is confined to its budgets and does not depend on the outer ones, `conf_decInto`; without
+the entry's budget the read consumes exactly `vb`, C01.) -/
+theorem C08_smaller_size (t : Ty) (hwf : t.wf = true) (x : Val) (hv : valid t x = true) (h : HChan) (vb : Bytes)
+    (h' : HChan) (he : encode t x h = .ok (vb, h')) (sz : Nat) (hlt : sz < vb.length)
+    (s : Src) (rest : Bytes) (hc : s.fault = .none) (hb : s.bytes = vb ++ rest) (hr : Resolves s.handles h'.pushed)
+    (prior : Val) :
+    ∃ e s', decInto t prior (s.withFrames (sz :: s.frames)) = (.error e, s') := by
+  cases hrun : decInto t prior (s.withFrames (sz :: s.frames)) with
+  | mk r s' =>
+    cases r with
+    | error e => exact ⟨e, s', rfl⟩
+    | ok a =>
+      exfalso
+      obtain ⟨c, hcl, hbytes, hfo, _, hloose⟩ := conf_decInto t prior _ a s' hrun
+      have hcsz : c ≤ sz := (framesOk_iff c (sz :: s.frames)).1 hfo sz (List.mem_cons_self ..)
+      have hl := hloose [] (sz :: s.frames) rfl
+      simp only [wf_wf, List.map_nil] at hl
+      have hrt := C01_roundtrip t hwf x h vb h' prior hv he (s.withFrames []) rest hc hb (by simp [framesOk]) hr
+      rw [hrt] at hl
+      have hbl := congrArg (fun p : Except Err Val × Src => p.2.bytes.length) hl
+      simp only [adv_bytes, wf_bytes, List.length_drop, hbytes, hb, List.length_append] at hbl
+      simp only [wf_bytes, hb, List.length_append] at hcl
+      omega
+
+/-- ... hence the entry, and with it (C08_loop_error, C08_table_error) the whole table read,
+fails: a recognised active entry whose declared size is smaller than its value is an error. -/
+theorem C08_entry_too_small (id sz : Nat) (t : Ty) (hwf : t.wf = true) (x : Val) (hv : valid t x = true) (h : HChan)
+    (vb : Bytes) (h' : HChan) (he : encode t x h = .ok (vb, h')) (hsz : sz < 2 ^ 64) (hlt : sz < vb.length)
+    (se : List (Nat × Bool)) (st : List Ty) (sc : List Val)
+    (s : Src) (rest : Bytes) (hc : s.fault = .none) (hb : s.bytes = encSize sz ++ (vb ++ rest))
+    (hf : framesOk (encSize sz).length s.frames = true) (hr : Resolves s.handles h'.pushed) :
+    ∃ e s', decEntry ((id, false) :: se) (t :: st) id (Val.nil :: sc) s = (.error e, s') := by
+  have hds := DecOK.decSize (ps := h'.pushed) hsz s (vb ++ rest) hc hb hf hr
+  obtain ⟨e, s', hin⟩ := C08_smaller_size t hwf x hv h vb h' he sz hlt (s.adv (encSize sz).length) rest
+    (by simpa using hc) (by simp [hb]) (by simpa using hr) (dflt t)
+  exact ⟨e, s', C08_entry_error id sz t se st sc s _ s' e hds hin⟩
 
 /-- non-vacuity: a table {1:u8, 2:u8}; entry 1 twice → DuplicateTableEntry; wrong hash →
 InvalidTableHash; entry 1 declared 3 bytes for a 1-byte value followed by junk → accepted and
